@@ -118,13 +118,12 @@ Section Refine.
               upd (recs h) (tail h) (Some r) ((head1 + k) mod sz) =
               nth_error (a_log a ++ [r]) (Z.to_nat (n + 1 - Z.min (a_cap a) (n + 1) + k))).
     { intros k Hk. unfold upd.
-      destruct (L =? a_cap a) eqn:EL.
+      destruct (Z.eq_dec L (a_cap a)) as [EL|EL].
       - (* full: the oldest record is dropped *)
-        apply Z.eqb_eq in EL.
+        assert (Hh1 : head1 = if head h + 1 <? sz then head h + 1 else 0).
+        { rewrite Hhead1. replace (L =? a_cap a) with true by lia. reflexivity. }
         assert (Hpos : (head1 + k) mod sz = (head h + (k + 1)) mod sz).
-        { rewrite Hhead1, EL, Z.eqb_refl. rewrite !mod_wrap by (destruct (head h + 1 <? sz) eqn:E9; lia).
-          destruct (head h + 1 <? sz) eqn:E4; destruct (head h + 1 + k <? sz) eqn:E5;
-            destruct (0 + k <? sz) eqn:E6; destruct (head h + (k + 1) <? sz) eqn:E7; lia. }
+        { rewrite Hh1. rewrite !mod_wrap by (ifs; lia). ifs; lia. }
         rewrite Hpos.
         destruct (Z.eq_dec (k + 1) L) as [Ek|Ek].
         + rewrite Ek, Hhl, Z.eqb_refl. symmetry. apply nth_error_snoc_eq. unfold n, zlen in *. lia.
@@ -134,8 +133,8 @@ Section Refine.
           rewrite Hel by lia. rewrite nth_error_snoc_lt by (unfold n, zlen in *; lia).
           f_equal. lia.
       - (* room left: nothing is dropped *)
-        apply Z.eqb_neq in EL.
-        assert (Hh1 : head1 = head h) by (rewrite Hhead1; apply Z.eqb_neq in EL; rewrite EL; reflexivity).
+        assert (Hh1 : head1 = head h).
+        { rewrite Hhead1. replace (L =? a_cap a) with false by lia. reflexivity. }
         rewrite Hh1.
         destruct (Z.eq_dec k L) as [Ek|Ek].
         + rewrite Ek, Hhl, Z.eqb_refl. symmetry. apply nth_error_snoc_eq. unfold n, zlen in *. lia.
